@@ -1752,7 +1752,9 @@ class TextQueryBackend(Backend):
         if arg is None:
             return None
         try:
-            if arg.__class__ in self.precedence:  # group if AND or OR condition is negated
+            if arg.__class__ in self.precedence or not self.compare_precedence(
+                cond, arg
+            ):  # group if AND or OR condition (or a value that converts into one) is negated
                 converted_group: str | DeferredQueryExpression | None = (
                     self.convert_condition_group(arg, state)
                 )
